@@ -188,6 +188,33 @@ def class_chain_dict(ci: int):
     return DecayChain(mother, {m: DecayMode(bf, list(ds), model="PHSP") for bf, m, ds in modes}).to_dict()
 
 
+def share_equal_parts(chain) -> int:
+    """The caller wrote the chain dictionary by hand and re-used one object wherever the same decaying
+    daughter (with the same table) occurs again: equal {name: table} entries become the very same dict.
+    The value of the chain dictionary is unchanged.  Returns the number of re-used entries."""
+    memo: dict = {}
+    n = 0
+
+    def walk(modes):
+        nonlocal n
+        for mode in modes:
+            fs = mode.get("fs", [])
+            for i, p in enumerate(fs):
+                if isinstance(p, dict):
+                    ((_, sub),) = p.items()
+                    walk(sub)
+                    k = json.dumps(p, sort_keys=True, default=repr)
+                    if k in memo and memo[k] is not p:
+                        fs[i] = memo[k]
+                        n += 1
+                    else:
+                        memo[k] = p
+
+    ((_, modes),) = chain.items()
+    walk(modes)
+    return n
+
+
 def damage(chain, rng: random.Random):
     """Break one entry somewhere in the chain so that construction raises part-way."""
     spots = []
@@ -266,6 +293,8 @@ def run_session(case: dict) -> dict:
                     stats["skipped_big"] += 1
                     abstract.append((k, "skipped"))
                     continue
+                if op.get("shared") and share_equal_parts(chain):
+                    stats["builds_from_a_chain_with_reused_objects"] = stats.get("builds_from_a_chain_with_reused_objects", 0) + 1
                 want = model_tree(chain)
                 if op.get("thread"):
                     # the caller builds this graph from a worker thread (started and joined: no interleaving, only another thread identity)
@@ -464,6 +493,7 @@ def gen_session(rng: random.Random, cfg: dict | None = None) -> dict:
     p_fail = rng.choice([0.0, 0.15, 0.3])
     p_thread = rng.choice([0.0, 0.0, 0.3])
     p_sub = rng.choice([0.0, 0.0, 0.25])
+    p_shared = rng.choice([0.0, 0.3, 0.6])
     ops = []
 
     def source():
@@ -495,6 +525,8 @@ def gen_session(rng: random.Random, cfg: dict | None = None) -> dict:
                 b["thread"] = True
             elif rng.random() < p_sub:
                 b["subclass"] = True
+            if rng.random() < p_shared:
+                b["shared"] = True
             if rng.random() < 0.08:
                 b["kill_to_string"] = rng.choice([1, 2, 3, rng.randint(4, 60), rng.randint(4, 400)])
             ops.append(b)
